@@ -107,6 +107,10 @@ ASSUMPTIONS = [
     'parallelism, the number and the shape of the accepted intersections), '
     'not a geometric description of the input',
     'nothing is proved about binary64 rounding (planeSide has no tolerance)',
+    'LAT=2 cells written with macrobody facets (b.k) are covered by the point '
+    'sweep of the decks only: the extract_surfaces model takes whole surface '
+    'numbers, and the run-time wrapper of develop_lattice records numbers '
+    'without the facet suffix (such calls are left out of tie:develophex)',
     'surfaces carrying a TRn, cell_transform / pot_transform and the writer '
     'are outside the C07 models: a TRCL/TRn prism is covered by the linked '
     'invariance theorem on the plane frames (C04) and observed at the call '
@@ -306,7 +310,7 @@ def rhp_card_deck(rng):
     import deck as deckmod
     want9 = rng.random() < 0.45
     while True:
-        deck, _meta = gen_deck(rng, style='rhp')
+        deck, _meta = gen_deck(rng, style='rhp', facets=False)
         if not _meta['moved'] and (
                 not want9 or len(deck['surfaces'][0]['params']) == 9):
             break
@@ -458,7 +462,7 @@ def plane_card(sid, point, nrm):
     return {'id': sid, 'mn': 'p', 'params': nrm + [d], 'tr': None, 'bc': ''}
 
 
-def gen_deck(rng, style=None, force=None, twin=None):
+def gen_deck(rng, style=None, force=None, twin=None, facets=None):
     '''LAT=2 deck; every element of the FILL array gets its own universe (or 0,
     or the lattice's own universe). Returns (deck, meta).  `force` (0..4) fixes the
     placement variant and puts a 0 and an own-universe entry in the array (the
@@ -510,6 +514,24 @@ def gen_deck(rng, style=None, force=None, twin=None):
             a1, a2 = (hexa['verts'][g] + hexa['verts'][g - 1] - 2 * centre
                       for g in (listing[0], listing[2]))
         a3 = height
+        facet_order = None
+        if facets is None:
+            facets = rng.random() < 0.45
+        if facets and len(params) == 15:
+            # the cell written with the FACETS of the macrobody (-1.k) in a
+            # user-chosen admissible order instead of "-1": facet 1..6 carry the
+            # sides listing[0..5]; the cell lists them as listing2 wants, the
+            # end facets 7 (top) and 8 (bottom) in either order.  The index
+            # convention follows the order on the CELL card.
+            listing2 = gen.gen_listing(rng)
+            facet_order = [listing.index(g) + 1 for g in listing2]
+            ends = [7, 8] if rng.random() < 0.5 else [8, 7]
+            facet_order += ends
+            expr = ('*',) + tuple(('f', -1, k) for k in facet_order)
+            a1, a2 = (hexa['verts'][g] + hexa['verts'][g - 1] - 2 * centre
+                      for g in (listing2[0], listing2[2]))
+            if ends[0] == 8:
+                a3 = -height
         vecs = [a1, a2, a3]
         has_caps = True
     else:
@@ -717,6 +739,7 @@ def gen_deck(rng, style=None, force=None, twin=None):
             'centre': [float(x) for x in centre], 'radius': radius,
             'r_fill': r_fill, 'caps': has_caps, 'moved': moved,
             'move': move, 'twin': twin_meta,
+            'facet_order': facet_order if style == 'rhp' else None,
             'tilt': bool(hexa['caps'] and hexa['caps']['tilt'])}
     return deck, meta
 
@@ -1371,10 +1394,20 @@ def _run(res, tier, seed, proofs_ok):
                                   twin=True)
         elif num == 6:
             deck, meta = gen_deck(rng, style='planes', twin=True)
+        elif num in (7, 8):
+            # corpus deck (fixed) and a fresh one: an RHP-bounded cell written
+            # with the facets of the macrobody in a permuted admissible order
+            frng = random.Random(80808) if num == 7 else rng
+            while True:
+                deck, meta = gen_deck(frng, style='rhp', facets=True)
+                if meta['facet_order'] and not meta['moved']:
+                    break
         else:
             deck, meta = gen_deck(rng)
         if meta.get('twin'):
             res.count('deck with two lattices on the same planes')
+        if meta.get('facet_order'):
+            res.count('deck: RHP cell written with permuted facets')
         text = deckmod.render(deck)
         res.seen(text)
         res.count('deck:' + meta['style'])
@@ -1387,7 +1420,9 @@ def _run(res, tier, seed, proofs_ok):
             # the (plane, side) list develop_lattice handed to
             # hexLatticeBaseVectors, against the model of the cards
             got = ('ok', spy.captured[0])
-            if meta['style'] == 'rhp':
+            if meta['style'] == 'rhp' and meta.get('facet_order'):
+                pass        # facet literals: not the '-b' shape of rhp_cell_surfaces
+            elif meta['style'] == 'rhp':
                 params = deck['surfaces'][0]['params']
                 rhp_cases.append(cpair(clist(cfloat(v) for v in params),
                                        cres(got, csurfs)))
@@ -1511,6 +1546,13 @@ def _run(res, tier, seed, proofs_ok):
     dev_cases, dev_meta = [], []
     for rec in DEVELOP_RECORDS:
         if rec.get('lattice') != 2 or 'snapshot_error' in rec:
+            continue
+        if len(set(abs(i) for i in rec['ids'])) != len(rec['ids']):
+            # the cell names macrobody FACETS (b.k): the wrapper of props/c06.py
+            # records surface numbers without the facet suffix, so its snapshot
+            # of the planes is not the cell's; such cells are covered by the
+            # point sweep of the decks, not by this tie
+            res.count('develop_lattice LAT=2: facet cell (not tied here)')
             continue
         if rec['out'][0] == 'err' and rec['out'][1] not in (
                 'LatticeError', 'ZeroDivisionError', 'AssertionError'):
